@@ -109,13 +109,21 @@ def gen_stream(rng, head, force=None):
     force = (framing, interim count) pins the framing so that every kind occurs in every run."""
     parts = []
     desc = []
-    for _ in range(rng.choice([0, 0, 0, 1, 1, 2]) if force is None else force[1]):
+    # interim responses carry arbitrary headers, including the connection-control ones (the reference skips a
+    # 1xx response whatever it carries); with a pinned framing every interim response has at least one of them
+    ctl = [b"Content-Length: 0", b"Content-Length: %d" % rng.choice([1, 5, 7, 1234]), b"Transfer-Encoding: chunked",
+           b"Connection: close", b"content-length:3", b"Keep-Alive: timeout=5"]
+    for k in range(rng.choice([0, 0, 0, 1, 1, 2]) if force is None else force[1]):
         code = rng.choice([100, 102, 103, 199])
         parts.append(b"HTTP/1.1 %d %s\r\n" % (code, rng.choice([b"Continue", b"", b"Early Hints"])))
-        if rng.random() < 0.4:
-            parts.append(b"Link: </s.css>\r\n")
+        ih = [h for h in [b"Link: </s.css>", b"X-I: 1"] if rng.random() < 0.4] + [h for h in ctl if rng.random() < 0.25]
+        if force is not None and not any(h in ctl[:4] for h in ih):
+            ih.append(ctl[(k + len(force[0])) % 4])
+        rng.shuffle(ih)
+        for h in ih:
+            parts.append(h + b"\r\n")
         parts.append(b"\r\n")
-        desc.append("1xx")
+        desc.append("1xx" + ("+ctl" if any(h in ctl for h in ih) else ""))
     code = rng.choice([200, 200, 200, 201, 404, 500, 204, 304, 299])
     ver = rng.choice([b"HTTP/1.1", b"HTTP/1.1", b"HTTP/1.0"])
     if force is not None:
@@ -259,8 +267,8 @@ def run(ctx):
     ctx.require_actions("HttpClientMC", ["DoStart", "DoDeliver", "DoDeliverBody", "DoConnLost"])
 
     scns = []
-    forced = [("length", 0), ("chunked", 0), ("close", 0), ("nobody", 0), ("length", 1), ("chunked", 2)]
-    nstreams = ctx.pick(12, 150)
+    forced = [("length", 0), ("chunked", 0), ("close", 0), ("nobody", 0), ("length", 1), ("chunked", 2), ("close", 1), ("nobody", 2), ("length", 2)]
+    nstreams = ctx.pick(15, 150)
     for si in range(nstreams):
         force = forced[si] if si < len(forced) else None
         head = (ctx.rng.random() < 0.2) if force is None else False
